@@ -616,6 +616,9 @@ impl World {
                             self.model.unpredictable = true;
                         }
                         self.model.pending.push(POp::Tombstone(*target));
+                        if self.model.batch_skip_sync {
+                            self.model.undurable_pending += 1;
+                        }
                         self.probes.deletes += 1;
                         self.after_append(log_b);
                         (true, false, None)
@@ -808,6 +811,8 @@ impl World {
                 match self.mem.as_mut().unwrap().end_batch() {
                     Ok(()) => {
                         self.model.batch_skip_sync = false;
+                        self.model.undurable_pending = 0;
+                        self.probes_extra("batches_ended", 1);
                         (true, false, None)
                     }
                     Err(e) => (false, false, Some(errs(&e))),
@@ -1029,6 +1034,10 @@ impl World {
             self.viol_sig(&["C19"], "single-file", class, format!("after {} ({}): directory holds {:?}", op.kind_name(), if ok { "ok" } else { "error" }, listing), i);
         }
         self.probes_extra("dir_listings", 1);
+        // ... and the memory itself is still there, whatever the call returned
+        if self.model.exists && !listing.iter().any(|n| n == FILE) && !matches!(op, Op::Abandon) {
+            self.viol_sig(&["C19", "C01"], "memory-file-present", if ok { "after-success" } else { "after-error" }, format!("after {} ({}): the memory file is gone; directory holds {:?}", op.kind_name(), if ok { "ok" } else { "error" }, listing), i);
+        }
         // ---- C18: a read-only handle never writes
         if self.ro && self.mem.is_some() && !matches!(op, Op::OpenRo) {
             let wr = self.writes_since(log_b);
@@ -1311,6 +1320,9 @@ impl World {
                     self.probes.updates += 1;
                 }
                 self.model.pending.push(POp::Insert(group));
+                if self.model.batch_skip_sync {
+                    self.model.undurable_pending += 1;
+                }
                 self.after_append(log_b);
                 (true, false, None)
             }
